@@ -221,6 +221,43 @@ def h_inside(ex):
         ex.lt(0.0, dist, 'inside=>positive-distance')
 
 
+def h_slant_any(ex):
+    """the same trapezoid identity for an ARBITRARY density profile: `density` is replaced
+    by an uninterpreted function of r^2 (values in [0,15]), so the radii at which the code
+    samples the density must be those of the points endpoint + t*distance*unit(direction) -
+    whatever the shells of the reference model would have hidden."""
+    from harness.common import UFun
+    mdl, R, table = model(ex.case['model'])
+    m = ex.case['m']
+    e, d = _geometry(ex, R)
+    step = ex.real('step', 50.0, 1.0e7)
+    u, E, b, e2, disc = ref_chord(ex, e, d, R)
+    ex.assume(disc > 0)
+    dist = -b + np.sqrt(disc)
+    ex.assume(dist > 0)
+    q = dist / step
+    ex.assume(q > m - 1 + 1e-6)
+    ex.assume(q <= m - 1e-6)
+    g = UFun(ex, 'rho', lo=0.0, hi=15.0, concrete=lambda r2: 3.0 + 2.0 * math.sin(r2 * 1e-9))
+    seen = []
+
+    def density(rs):
+        seen.append(rs)
+        return g(rs * rs)
+    mdl.density = density
+    got = mdl.slant_depth(e, d, step=step)
+    ex.same(len(seen), 1, 'density-sampled-once')
+    ts = [i / (m - 1) for i in range(m)]
+    pts = [[E[k] + t * dist * u[k] for k in range(3)] for t in ts]
+    r2 = [p[0] * p[0] + p[1] * p[1] + p[2] * p[2] for p in pts]
+    if ex.twin == 'other-radius':
+        r2 = [x + 1.0e6 for x in r2]
+    rho = [g(x) for x in r2]
+    w = [0.5 if i in (0, m - 1) else 1.0 for i in range(m)]
+    want = 100.0 * dist * sum(w[i] * rho[i] for i in range(m)) / (m - 1)
+    ex.close(got, want, 'slant==100*distance*trapezoid(any-density-at-the-chord-points)', tol=1e-3)
+
+
 def h_invariance(ex):
     """independent of the length of the direction vector (symbolic factor) and of a common
     rotation of endpoint offset and direction about the vertical (quarter and half turns
@@ -315,6 +352,15 @@ HARNESSES = [
                                                                      'tangent-xy')],
                    'thorough': [{'model': 'prem', 'dir': dn} for dn in DIRS]},
             budget={'quick': {'query_timeout_ms': 60000}}),
+    Harness('slant-any-density', h_slant_any, _mods, encodes=_enc, twins=('other-radius',),
+            cases={'quick': [{'model': 'prem', 'm': 3, 'dir': 'shallow', '_twins': 1},
+                             {'model': 'prem', 'm': 2, 'dir': 'steep'},
+                             {'model': 'cmc', 'm': 3, 'dir': 'tangent-xy'}],
+                   'thorough': [{'model': 'prem', 'm': 3, 'dir': 'shallow', '_twins': 1}] +
+                   [{'model': 'prem', 'm': m, 'dir': dn} for m in (2, 3, 4)
+                    for dn in ('steep', 'shallow', 'tangent-xy', 'up-slant', 'grazing', 'down')]},
+            budget={'quick': {'wall_s': 400, 'query_timeout_ms': 60000},
+                    'thorough': {'wall_s': 900, 'query_timeout_ms': 120000}}, required=False),
     Harness('invariance', h_invariance, _mods, encodes=_enc, twins=('scaled',),
             cases={'quick': [{'model': 'cmc', 'm': 2, 'dir': 'steep'},
                              {'model': 'prem', 'm': 2, 'dir': 'tangent-xy'}],
